@@ -61,7 +61,12 @@ pub fn gen_c12_base(src: &mut Src<'_>) -> C12Base {
 	}
 	let fault_step;
 	let api;
-	if scoped {
+	// `{:?}` takes and releases locks too: the same clauses for a raw panic inside it
+	if src.chance(35) {
+		fault_step = steps.len();
+		steps.push((0, Step::Debug { target, cap: None, payload: 0 }));
+		api = "debug".to_string();
+	} else if scoped {
 		let owned_key = src.chance(100);
 		fault_step = steps.len();
 		let sc = Step::Scoped { target, read, try_, owned_key, body: vec![BodyOp::Touch] };
